@@ -2061,6 +2061,8 @@ def rule_action_round_trip(repo, chk):
     if not gps:
         raise ExtractError("_EpanetRule.generate_control: signature changed")
 
+    tokens = {}
+
     def read(clause, line):
         got = []
         model = Obj("model", {})
@@ -2093,6 +2095,17 @@ def rule_action_round_trip(repo, chk):
             return NotImplemented
 
         def consts(dn):
+            # a module-level table of the reader's module (a literal display), or a member of an enum-like class used as an opaque token
+            if "." not in dn:
+                try:
+                    v = repo.module_assign(EIO, dn)
+                except AnchorError:
+                    v = None
+                if isinstance(v, (ast.Dict, ast.List, ast.Tuple, ast.Set, ast.Constant)):
+                    return Ev({}, consts, hook, attr_hook).ev(v)
+            elif re.match(r"^[A-Z]\w*\.[A-Za-z_]\w*$", dn):
+                tok = tokens.setdefault(dn, Obj(dn, {}))
+                return tok
             raise Unknown("unbound name %s" % dn)
         env = {nm: [] for nm in empties}
         env.update({gps[0]: model, "self": me, loops[clause].target.id: line})
@@ -2967,6 +2980,14 @@ def rule_sections(repo, chk, fd):
         raise AnchorError("from_dict: loop over d['controls'] not found")
     var = ctrl_loop.target.id
     disc = {s_.targets[0].id for s_ in ctrl_loop.body if isinstance(s_, ast.Assign) and len(s_.targets) == 1 and isinstance(s_.targets[0], ast.Name) and "type" in keys_of(s_.value, var)}
+    for _round in range(3):        # locals derived from the discriminator by a case change only (kind = ctrl_type.lower())
+        for s_ in ctrl_loop.body:
+            if isinstance(s_, ast.Assign) and len(s_.targets) == 1 and isinstance(s_.targets[0], ast.Name):
+                e = s_.value
+                while isinstance(e, ast.Call) and isinstance(e.func, ast.Attribute) and e.func.attr in ("lower", "upper", "strip") and not e.args:
+                    e = e.func.value
+                if isinstance(e, ast.Name) and e.id in disc:
+                    disc.add(s_.targets[0].id)
 
     def type_of_test(t):
         """'simple' for tests like ctrl_type.lower() == 'simple' / control['type'] == 'simple' (either operand order)"""
